@@ -745,8 +745,10 @@ func (s *Server) runElection(id string, elecID *spb.Uint128) (*spb.ModifyRespons
 		return nil, status.Newf(codes.Internal, "cannot store election ID %s for client %s", elecID, id).Err()
 	}
 
-	s.elecMu.RLock()
-	defer s.elecMu.RUnlock()
+	// The comparison with, and update of, the current election ID must be atomic
+	// with respect to other clients' elections, so the write lock is required.
+	s.elecMu.Lock()
+	defer s.elecMu.Unlock()
 	verifPoint("server.runElection.beforeCompare")
 	nm, _, err := isNewMaster(elecID, s.curElecID)
 	if err != nil {
